@@ -259,7 +259,16 @@ class TxInTxShape:
         return TxIn(prev_out, script_sig, sequence, script_witness, check_validity=False)
 
 
-@shape("btclib.tx.tx.Tx", fields=dict(version="int", lock_time="int", vin="list[obj:TxIn#tx;1..2]", vout="list[obj:TxOut;1..2]"))
+import os  # noqa: E402
+
+# Tx-level composition: list lengths are this proof's bound (element codecs are proved for every
+# length on their own): quick tier one input and one output, thorough tier 1..2 of each
+_THOROUGH = os.environ.get("VERIF_TIER") == "thorough"
+_VIN = "list[obj:TxIn#tx;1..2]" if _THOROUGH else "list[obj:TxIn#tx;1]"
+_VOUT = "list[obj:TxOut;1..2]" if _THOROUGH else "list[obj:TxOut;1]"
+
+
+@shape("btclib.tx.tx.Tx", fields=dict(version="int", lock_time="int", vin=_VIN, vout=_VOUT))
 class TxShape:
     def build(version, lock_time, vin, vout):
         return Tx(version, lock_time, vin, vout, check_validity=False)
